@@ -73,7 +73,7 @@ def run(ctx):
         check_vectors(ctx, r, D, L, tail, a["q"], "sample_q_vectors")
     # (ii) through real samples
     ss = S.generate(ctx, 10 if ctx.quick else 60, 2 if ctx.quick else 4, max_e=6, max_loops=4, routings_per_graph=1,
-                    names=["bubble", "sunrise", "banana4", "banana5", "triangle", "double_triangle", "tadpole"], kinds=("uniform", "angles"))
+                    names=["bubble", "sunrise", "banana4", "banana5", "triangle", "double_triangle", "tadpole"], kinds=("uniform", "angles", "tiny_xi", "zero_xi"))
     S.run(ss)
     SC.corr_qvec(ctx, ss)
     for s in ss:
